@@ -52,16 +52,37 @@ def run(ctx):
             ctx.fail("R19.1", "descriptor_to_schema:unmapped-type", f"an unmapped field type falls back to {norm(gets[0].args[1])} instead of being refused: values are written as a "
                      "different type", gets[0], key="R19.1:descriptor_to_schema:default-type")
         var = norm(gets[0]._parent.targets[0]) if isinstance(getattr(gets[0], "_parent", None), ast.Assign) else None
-        guard = next((st for st in walk_no_nested(dts) if isinstance(st, ast.If) and var and norm(st.test) in (f"not {var}", f"{var} is None") and st.body and isinstance(st.body[-1], ast.Raise)), None)
-        ok = guard is not None and all(dcfg.node_of(guard).id in dcfg.reachable(dcfg.entry) for _ in [0])
-        # every use of the looked-up type must come after the guard
-        uses = [n for n in ast.walk(dts) if isinstance(n, ast.Name) and n.id == var and isinstance(n.ctx, ast.Load) and not (guard is not None and n in list(ast.walk(guard.test)))]
-        for u in uses:
-            node = dcfg.header_node_for_expr(u) or dcfg.node_of(u)
-            facts = {(t, p) for t, p, _ in dcfg.facts_at(node.id)}
-            ok &= (f"not {var}", False) in facts or (var, True) in facts or (f"{var} is None", False) in facts
+        from .. import logic as _lg19
+        ok = var is not None
+        if var is not None:
+            # (a) with the lookup result missing (None / falsy) the function cannot reach a field-schema append nor return: it raises
+            gnode = dcfg.node_of(gets[0])
+            starts = [v for v, cnd in dcfg.succ[gnode.id] if not (cnd is not None and cnd[0] == "<exc>")]
+
+            def missing(atom):
+                if atom == var:
+                    return False
+                if atom in (f"{var} is None", f"{var} == None"):
+                    return True
+                if atom in (f"{var} is not None", f"{var} != None"):
+                    return False
+                return None
+
+            reach = set()
+            for s0 in starts:
+                reach |= _lg19.reachable_assuming(dcfg, s0, missing, avoid=lambda n: n.id == gnode.id)
+            app_ids = {dcfg.node_of(a).id for a in appends}
+            ok = not (reach & app_ids) and dcfg.exit not in reach
+            # (b) every use of the looked-up type is under a test that established it
+            uses = [n for n in ast.walk(dts) if isinstance(n, ast.Name) and n.id == var and isinstance(n.ctx, ast.Load)]
+            for u in uses:
+                node = dcfg.header_node_for_expr(u) or dcfg.node_of(u)
+                if node.kind == "test":
+                    continue  # the test itself
+                prem = _lg19.facts_as_premises(dcfg.facts_at(node.id))
+                ok &= _lg19.implies(prem, _lg19.parse(var)) or _lg19.implies(prem, _lg19.parse(f"{var} is not None"))
         ctx.check(ok, "R19.1", "descriptor_to_schema:unmapped-type", "a field type without an Avro mapping is not refused before its schema is emitted", dts,
-                  f"`if not {var}: raise` precedes every use", key="R19.1:descriptor_to_schema:unmapped-not-refused")
+                  f"a missing `{var}` raises; every use is under a test that established it", key="R19.1:descriptor_to_schema:unmapped-not-refused")
     elif subs:
         ctx.ok("R19.1", "descriptor_to_schema:unmapped-type", "AVRO_TYPE_MAP[...] raises KeyError for an unmapped type", subs[0])
     else:
